@@ -6,6 +6,7 @@ package c01
 
 import (
 	"bytes"
+	"encoding/base64"
 	"crypto/tls"
 	"crypto/x509"
 	"fmt"
@@ -69,6 +70,7 @@ var shapes = []shapeDef{
 	{"te-alone", []F{{"TE", "trailers"}}},
 	{"trailer-alone", []F{{"Trailer", "X-T"}}},
 	{"upgrade-requested", []F{{"Connection", "Upgrade"}, {"Upgrade", "foo"}}},
+	{"upgrade-requested-and-nominated", []F{{"Connection", "Upgrade, X-Hop"}, {"Upgrade", "foo"}, {"X-Hop", "h"}, {"X-Keep", "k"}}},
 	{"nominated-mixed-case", []F{{"Connection", "x-hOp , Keep-Alive"}, {"X-Hop", "h"}, {"Keep-Alive", "timeout=1"}, {"X-Hop2", "2"}}},
 	// the list syntax of Connection: optional whitespace around the commas is optional, empty elements are ignored, several lines are one list
 	{"nominated-no-space", []F{{"Connection", "X-Hop-A,X-Hop-B"}, {"X-Hop-A", "a"}, {"X-Hop-B", "b"}, {"X-Keep", "k"}}},
@@ -712,6 +714,128 @@ func twoUploads(x *explore.X) {
 	}
 }
 
+// ---- a request on a connection whose previous request was refused -------------------------------------------------
+
+// afterRefused: the FIRST request of a keep-alive connection carries a body and is refused by the proxy itself
+// (denied domain: 403; proxy authentication missing: 407; next hop unreachable: 502) - it never reaches a
+// round trip. The SECOND request on the same connection is valid. Either the proxy closes the connection
+// after the refusal (then nothing may be forwarded), or the second request reaches the next hop exactly as
+// sent: octets of the refused body must not be taken for the start of the next request.
+func afterRefused(x *explore.X) {
+	kind := []string{"denied-domain", "proxy-auth-missing", "next-hop-unreachable"}[x.ChooseFree("refusal", 3)]
+	framing := []string{"cl", "chunked"}[x.ChooseFree("refused-framing", 2)]
+	size := []int{5, 4095, 4097, 20000}[x.ChooseFree("refused-body-size", 4)]
+	pipelined := x.ChooseFree("second-request-pipelined", 2) == 1
+	secondBody := x.ChooseFree("second-has-body", 2) == 1
+	viaUp := x.ChooseFree("config", 2) == 1
+	opts := world.Options{}
+	addr := originHost + ":80"
+	e := &env{}
+	if viaUp {
+		opts.Upstream, addr, e.viaUpstream = "http://up.test:8080", "up.test:8080", true
+	}
+	refusedHost := "denied.test"
+	var auth []F
+	switch kind {
+	case "denied-domain":
+		opts.DenyDomains = []string{`denied\.test`}
+	case "proxy-auth-missing":
+		opts.BasicAuth = "user:pass"
+		refusedHost = originHost
+		auth = []F{{"Proxy-Authorization", "Basic " + base64.StdEncoding.EncodeToString([]byte("user:pass"))}}
+	case "next-hop-unreachable":
+		if viaUp {
+			// the next hop of every request is the upstream proxy: no request can be refused this way
+			x.Outcome("n/a")
+			return
+		}
+		refusedHost = "nobody.test"
+	}
+	w, err := world.Start(opts)
+	if err != nil {
+		x.Failf("harness/start", "%v", err)
+		return
+	}
+	nh, _ := w.Hop(addr, nil)
+	body := h1x.Pattern(size, 7)
+	// the refused body is made of octets that would parse as a request head if they were ever read as one
+	copy(body, "GET http://"+originHost+"/smuggled HTTP/1.1\r\nHost: "+originHost+"\r\n\r\n")
+	var first []byte
+	head := "POST http://" + refusedHost + "/refused HTTP/1.1\r\nHost: " + refusedHost + "\r\n"
+	if framing == "cl" {
+		first = append([]byte(head+fmt.Sprintf("Content-Length: %d\r\n\r\n", len(body))), body...)
+	} else {
+		first = []byte(head + "Transfer-Encoding: chunked\r\n\r\n")
+		for off := 0; off < len(body); off += 1000 {
+			end := min(off+1000, len(body))
+			first = append(first, []byte(fmt.Sprintf("%x\r\n", end-off))...)
+			first = append(first, body[off:end]...)
+			first = append(first, "\r\n"...)
+		}
+		first = append(first, "0\r\n\r\n"...)
+	}
+	r2 := reqSpec{proto: "HTTP/1.1", method: "GET", form: 1, pathq: "/second?x=1", fields: auth}
+	if secondBody {
+		r2 = reqSpec{proto: "HTTP/1.1", method: "POST", form: 1, pathq: "/second?x=1", framing: "cl", body: h1x.Pattern(300, 23), fields: auth}
+	}
+	cl, _ := w.Client()
+	settle := time.Duration(0)
+	if kind == "next-hop-unreachable" {
+		settle = 20 * time.Second // the dial is retried with back-off before the proxy answers 502
+	}
+	what := fmt.Sprintf("refusal=%s, refused body %d octets (%s), second request pipelined=%v with body=%v, via upstream=%v", kind, size, framing, pipelined, secondBody, viaUp)
+	x.Logf("%s", what)
+	if pipelined {
+		cl.Send(append(append([]byte{}, first...), r2.msg().Wire()...))
+	} else {
+		cl.Send(first)
+		world.Settle(settle)
+		st := httpwire.ParseResponses(cl.Recv(), []string{"POST"}, false)
+		if len(st.Msgs) < 1 || st.Msgs[0].Status < 400 {
+			x.Failf("harness/not-refused", "%s: the first request was not refused: %q", what, world.Clip(cl.Recv()))
+			return
+		}
+		if !cl.C.Status().PeerClosed {
+			cl.Send(r2.msg().Wire())
+		}
+	}
+	world.Settle(settle)
+	nh.Poll()
+	x.Check()
+	var seen []httpwire.Msg
+	for _, raw := range nh.Raw {
+		st := httpwire.ParseRequests(raw.Recv())
+		if st.State != "" {
+			x.Failf("after-refused/garbage-forwarded", "%s: the next hop received %q (%s %s)", what, world.Clip(raw.Recv()), st.State, st.Err)
+		}
+		seen = append(seen, st.Msgs...)
+	}
+	closed := cl.C.Status().PeerClosed
+	switch {
+	case len(seen) == 0 && closed:
+		// the proxy gave up the connection after the refusal: nothing was forwarded, nothing can be wrong
+		x.Outcome(kind + "/closed-after-refusal")
+	case len(seen) == 0:
+		x.Failf("after-refused/second-request-lost", "%s: the connection is still open but the request that followed the refused one was not forwarded; client got %q", what, world.Clip(cl.Recv()))
+	case len(seen) > 1:
+		x.Failf("after-refused/extra-request", "%s: the next hop received %d requests, the client sent one that may be forwarded; first: %q", what, len(seen), world.Clip(seen[0].Raw))
+	default:
+		e.clientIP = cl.C.LocalAddr().String()
+		e.clientIP = e.clientIP[:strings.LastIndex(e.clientIP, ":")]
+		expectForwarded(x, e, r2, seen[0])
+		x.Outcome(kind + "/second-forwarded")
+	}
+	cl.Close()
+	if err := w.Stop(); err != nil {
+		x.Failf("shutdown", "%v", err)
+	}
+	nh.Shutdown()
+	world.Settle(5 * time.Second)
+	if l := world.Leaks(); l != "" {
+		x.Failf("goroutine-leak", "%s", l)
+	}
+}
+
 // ---- cleartext HTTP inside an intercepted CONNECT ------------------------------------------------------------------
 
 // cleartextInMITM: with MITM on, a CONNECT whose first tunnelled byte is not a TLS hello carries plain HTTP/1.x
@@ -819,6 +943,7 @@ func TestC01(t *testing.T) {
 	s.Add(explore.Scenario{Name: "body-product+mitm", Remote: true, Tiers: []string{"thorough"},
 		Run: bubble(func(x *explore.X) { scenario(x, true, 3) })})
 	s.Add(explore.Scenario{Name: "two-uploads", Remote: true, Run: bubble(twoUploads)})
+	s.Add(explore.Scenario{Name: "after-refused", Remote: true, Run: bubble(afterRefused)})
 	s.Add(explore.Scenario{Name: "cleartext-in-mitm", Remote: true, Run: bubble(cleartextInMITM)})
 	s.Add(explore.Scenario{Name: "concurrent-via", Remote: true, MaxDev: map[string]int{"quick": 2, "thorough": 3},
 		Run: func(x *explore.X) { tcore.ConcurrentVia(t, x) }})
